@@ -1351,3 +1351,57 @@ func r1512(c *Ctx, r *R) {
 		}
 	}
 }
+
+func init() {
+	register(&Rule{ID: "R09.7", Props: []string{"C09", "C10"}, Floor: 2, Title: "one alert decision per (metric name, peer) and check round: no alert() call sits in a loop over the entries of one peer's metrics window (the decision, FailedMetric, is per pair; alert() alternates between alerting and forgetting)", Run: r097})
+}
+
+func r097(c *Ctx, r *R) {
+	al := c.fn(r, "monitor/metrics", "Checker.alert")
+	if al == nil {
+		return
+	}
+	sites, _ := c.callSitesOf(al)
+	for _, s := range sites {
+		f := s.Parent()
+		b := s.Block()
+		var header *ssa.BasicBlock
+		for d := b; d != nil; d = d.Idom() {
+			if inNaturalLoop(b, d) {
+				header = d
+				break
+			}
+		}
+		key := "per-pair:" + f.Name()
+		if header == nil {
+			r.OK(key, s.Pos(), "alert() is not called in a loop")
+			continue
+		}
+		// what the innermost loop ranges over: the slice indexed by the
+		// loop's own counter
+		isCounter := func(v ssa.Value) bool {
+			if bo, ok := v.(*ssa.BinOp); ok {
+				v = bo.X
+			}
+			phi, ok := v.(*ssa.Phi)
+			return ok && phi.Block() == header
+		}
+		src := ""
+		window := false
+		instrs(f, func(i ssa.Instruction) {
+			ia, ok := i.(*ssa.IndexAddr)
+			if !ok || !isCounter(ia.Index) || !inNaturalLoop(ia.Block(), header) && ia.Block() != header {
+				return
+			}
+			if call, _ := originCall(ia.X); call != nil {
+				src = callName(call.Common())
+				if nameMatches(src, "metrics.Store).PeerMetricAll", "metrics.Window).All") {
+					window = true
+				}
+			} else if p := paramIndex(f, ia.X); p >= 0 {
+				src = "parameter " + f.Params[p].Name()
+			}
+		})
+		r.Check(!window, key, s.Pos(), "the innermost loop around alert() ranges over "+src+" (one element per peer/metric pair)", f.Name()+" calls alert() once per entry of one peer's metrics window ("+src+"): FailedMetric is decided per (name, peer), so a window holding N expired entries alerts about N/2 times in the round that detects the failure instead of once")
+	}
+}
